@@ -53,3 +53,16 @@
 (assert (forall ((p G) (q G)) (! (= (epair (gneg p) q) (gneg (epair p q))) :pattern ((epair (gneg p) q)))))
 ; eacc[e] : the product of pairings accumulated in a pairing engine object e (written additively)
 ; ghost eacc G
+; ---- DKG status matrix: number of Complaint (= 1) entries among a set of keys of a status row ----
+(declare-fun cntComplaints ((Array Int Int) (Array Int Bool)) Int)
+(assert (forall ((v (Array Int Int))) (! (= (cntComplaints v ((as const (Array Int Bool)) false)) 0) :pattern ((cntComplaints v ((as const (Array Int Bool)) false))))))
+(assert (forall ((v (Array Int Int)) (vis (Array Int Bool)) (k Int))
+  (! (=> (not (select vis k)) (= (cntComplaints v (store vis k true)) (+ (cntComplaints v vis) (ite (= (select v k) 1) 1 0)))) :pattern ((cntComplaints v (store vis k true))))))
+(assert (forall ((v (Array Int Int)) (vis (Array Int Bool))) (! (>= (cntComplaints v vis) 0) :pattern ((cntComplaints v vis)))))
+; ssumIdx(sv, idx, o, n, mv) = sum_{k<n} sv[ mv[ idx[o+k] ] ]  (left fold): the sum of the scalars a map assigns to a list of keys
+(declare-fun ssumIdx ((Array Int S) (Array Int Int) Int Int (Array Int Int)) S)
+(assert (forall ((sv (Array Int S)) (ix (Array Int Int)) (o Int) (n Int) (mv (Array Int Int)))
+  (! (=> (<= n 0) (= (ssumIdx sv ix o n mv) szero)) :pattern ((ssumIdx sv ix o n mv)))))
+(assert (forall ((sv (Array Int S)) (ix (Array Int Int)) (o Int) (n Int) (mv (Array Int Int)))
+  (! (=> (> n 0) (= (ssumIdx sv ix o n mv) (sadd (ssumIdx sv ix o (- n 1) mv) (select sv (select mv (select ix (+ o (- n 1))))))))
+     :pattern ((ssumIdx sv ix o n mv)))))
